@@ -15,6 +15,14 @@ CHECKS = {
    text="Samples are unbounded z3 reals and the alternating extrema positions z3 integers; all feasible paths of the real find_zerox are executed and every midpoint is proved equal to the floor-median of the half-height crossings (centre for inverted / all-zero flanks), with count and temporal pairing.",
    note="Trusted: numpy model (witness-validated), real arithmetic for (a+b)/2. Bound: N <= 7 (quick) / 9 (thorough).",
    ref="4 C03"),
+ 'C05': dict(
+   text="Flank voltages of any sign (zero allowed), positive integer periods, raw samples and cyclepoint positions are z3 variables; the four real burst-feature functions run over the pandas/numpy models on every feasible path (including the 0/0 -> NaN and x/0 -> -inf branches) and each output cell is proved equal to the reference definition and inside [0,1] for positive flank voltages.",
+   note="Trusted: pandas/numpy models incl. rank(method=average) (witness-validated on the real libraries), real arithmetic for ratios/means. Bounds: see evidence.bounds (rows <= 5/6, N <= 7/9).",
+   ref="4 C05"),
+ 'C16': dict(
+   text="Table cells, two threshold vectors and two min_n_cycles are z3 variables; input labels are produced by the real detect_bursts_cycles on the same path, then the real recompute_edges/recompute_edge run; frame (input untouched, only edge consistency cells change), value (one-sided ratio) and label (rule on the edited table; bursts only grow for unchanged thresholds) obligations are proved. Larger tables use a cut of compute_*_consistency (proved by C05) to keep the arithmetic linear.",
+   note="Trusted: pandas/numpy models (witness-validated), C05 for the cut configurations. Bounds: uncut rows 3..4 (quick) / 3..5 (thorough); cut rows 3..6 / 3..8.",
+   ref="4 C16"),
  'C06': dict(
    text="All four feature columns (reals with a symbolic NaN flag per cell), the four thresholds and min_n_cycles are z3 variables; every feasible path of the real detect_bursts_cycles + check_min_burst_cycles is executed over the pandas/numpy models and the label rule and the threshold-monotonicity implication (second run on the same path) are proved.",
    note="Trusted: pandas/numpy models (witness-validated on real pandas 3 every run). Bound: 1..7 rows (quick) / 1..10 (thorough). +-inf cells not explored.",
